@@ -112,12 +112,12 @@ GraphFamily ==
 Fresh(g) == [f |-> [x \in Files(g) |-> IF x \in g.statics THEN "CONFIRMED" ELSE "PLANNED"],
              s |-> [x \in g.steps |-> "PENDING"]]
 
-VARIABLES g, st, n, l, out
-vars == <<g, st, n, l, out>>
-Init == g \in GraphFamily /\ st = Fresh(g) /\ n = 0 /\ l = 0 /\ out = <<>>
+VARIABLES g, st, n, l, out, ak, cur, acc
+vars == <<g, st, n, l, out, ak, cur, acc>>
+Init == g \in GraphFamily /\ st = Fresh(g) /\ n = 0 /\ l = 0 /\ out = <<>> /\ ak = 0 /\ cur = 0 /\ acc = <<>>
 Next ==
   /\ n' = n + 1
-  /\ UNCHANGED <<g, l, out>>
+  /\ UNCHANGED <<g, l, out, ak, cur, acc>>
   /\ \/ \E f \in Files(g) : \E pr \in BOOLEAN : ExternalEnabled(st, f, pr) /\ st' = DoExternal(g, st, f, pr)
      \/ \E s \in g.steps : StartEnabled(g, st, s) /\ st' = DoStart(g, st, s)
      \/ \E s \in g.steps : SucceedEnabled(g, st, s) /\ st' = DoSucceed(g, st, s)
@@ -149,19 +149,21 @@ Apply(gr, s0, a) ==
     [] a.a = "start" -> IF StartEnabled(gr, s0, a.s) THEN <<TRUE, DoStart(gr, s0, a.s)>> ELSE <<FALSE, s0>>
     [] a.a = "succeed" -> IF SucceedEnabled(gr, s0, a.s) THEN <<TRUE, DoSucceed(gr, s0, a.s)>> ELSE <<FALSE, s0>>
     [] a.a = "fail" -> IF FailEnabled(gr, s0, a.s) THEN <<TRUE, DoFail(gr, s0, a.s, SetOf(a.present))>> ELSE <<FALSE, s0>>
-RECURSIVE Run(_, _, _)
-Run(gr, s0, acts) ==
-  IF acts = <<>> THEN <<>>
-  ELSE LET r == Apply(gr, s0, Head(acts)) IN
-       <<[enabled |-> r[1], f |-> r[2].f, s |-> r[2].s]>> \o Run(gr, r[2], Tail(acts))
-RInit == l = 0 /\ out = <<>> /\ g = 0 /\ st = 0 /\ n = 0
+\* one TLC step per action (linear in the length of the sequences)
+RInit == l = 1 /\ out = <<>> /\ g = 0 /\ st = 0 /\ n = 0 /\ ak = 0 /\ cur = Fresh(GraphOf(Lines[1])) /\ acc = <<>>
 RNext ==
-  /\ l < NL
+  /\ l <= NL
   /\ UNCHANGED <<g, st, n>>
-  /\ l' = l + 1
-  /\ out' = Append(out, [id |-> Lines[l + 1].id,
-                         states |-> Run(GraphOf(Lines[l + 1]), Fresh(GraphOf(Lines[l + 1])), Lines[l + 1].acts)])
-  /\ (l' = NL) => JsonSerialize(IOEnv.VERDICT_FILE, [vectors |-> out', n |-> NL])
+  /\ IF ak < Len(Lines[l].acts)
+     THEN LET r == Apply(GraphOf(Lines[l]), cur, Lines[l].acts[ak + 1]) IN
+          /\ ak' = ak + 1
+          /\ cur' = r[2]
+          /\ acc' = Append(acc, [enabled |-> r[1], f |-> r[2].f, s |-> r[2].s])
+          /\ UNCHANGED <<l, out>>
+     ELSE /\ out' = Append(out, [id |-> Lines[l].id, states |-> acc])
+          /\ l' = l + 1 /\ ak' = 0 /\ acc' = <<>>
+          /\ cur' = IF l + 1 <= NL THEN Fresh(GraphOf(Lines[l + 1])) ELSE 0
+          /\ (l' = NL + 1) => JsonSerialize(IOEnv.VERDICT_FILE, [vectors |-> out', n |-> NL])
 RSpec == RInit /\ [][RNext]_vars
-Consumed == TLCGet("stats").diameter - 1 = NL
+Consumed == TLCGet("stats").diameter >= NL
 =============================================================================
